@@ -2,6 +2,7 @@
    Statements only; every proof is `exact <lemma>`; assumptions are printed. *)
 From Coq Require Import ZArith Bool List.
 From ExaV Require Import gen.Gen_Limit model.Model_Api spec.Spec_Api proofs.Proofs_Api.
+From ExaV Require model.Model_WriteQueue proofs.Proofs_WriteQueue.
 Import ListNotations.
 Open Scope Z_scope.
 
@@ -190,6 +191,31 @@ Example C14_example_group :
   = ([[Done]; [Done]; [Done]; [Error]], [(1, [(7, 1)]); (2, [(8, 2)])]).
 Proof. vm_compute. reflexivity. Qed.
 
+(* ---- the API pipe (Processes.write in async mode, Processes.flush_write_queue; Model_WriteQueue, tied by
+   harness/wqueue.py).  For EVERY history of write() calls and flushes, whatever the pipe accepts at each os.write
+   (everything, a part, nothing, EAGAIN; at most BATCH items per flush) and as long as the pipe reports no error:
+   what the helper has read, followed by what is still queued, is exactly the records written, in the order written -
+   no record overtaken, repeated, dropped or cut anywhere but at the end of what was read so far.  (C14: replies are read in command order.) *)
+Theorem C14_api_pipe_in_order : forall ops,
+  forallb Model_WriteQueue.error_free ops = true ->
+  Model_WriteQueue.wq_dead (Model_WriteQueue.run ops) = false
+  /\ Model_WriteQueue.wq_out (Model_WriteQueue.run ops) ++ concat (Model_WriteQueue.wq_q (Model_WriteQueue.run ops))
+     = Model_WriteQueue.enqueued ops.
+Proof. exact Proofs_WriteQueue.queue_in_order. Qed.
+
+(* a pipe that takes everything empties a queue of at most BATCH records in one flush *)
+Theorem C14_api_pipe_drains : forall big q out budget,
+  Forall (fun d => (length d <= big)%nat) q -> (length q <= budget)%nat ->
+  fst (fst (Model_WriteQueue.drain q out budget (Proofs_WriteQueue.generous big (length q)))) = ([], out ++ concat q, false).
+Proof. exact Proofs_WriteQueue.drain_generous. Qed.
+
+(* not vacuous: putting a refused record back at the END of the queue (a seeded change) delivers [2; 1] for [1]; [2] *)
+Theorem C14_api_pipe_back_refuted :
+  let '((q1, out1, _), _, _) := Model_WriteQueue.drain_back [[1%Z]; [2%Z]] [] 10 [Model_WriteQueue.Again] in
+  let '((q2, out2, _), _, _) := Model_WriteQueue.drain_back q1 out1 10 [Model_WriteQueue.W 5; Model_WriteQueue.W 5] in
+  out2 = [2%Z; 1%Z] /\ q2 = [].
+Proof. exact Proofs_WriteQueue.back_reorders. Qed.
+
 Print Assumptions C14_chunking_independent.
 Print Assumptions C14_chunking_same.
 Print Assumptions C14_oversize_needs_hypothesis.
@@ -213,3 +239,6 @@ Print Assumptions C14_group_end_atomic.
 Print Assumptions C14_group_end_applied.
 Print Assumptions C14_reply_order_with_scheduler.
 Print Assumptions C14_batching_breaks_order.
+Print Assumptions C14_api_pipe_in_order.
+Print Assumptions C14_api_pipe_drains.
+Print Assumptions C14_api_pipe_back_refuted.
